@@ -44,6 +44,7 @@ pub fn gen_history_spec(rng: &mut Prng, prop: &str, with_jitter: bool, max_ops: 
         spec.seed = Some(gen_seed(rng, kind));
         spec.pre = rng.below(pre_range(kind) + 1) as u32;
         spec.ops = gen_output_ops(rng, kind, max_ops);
+        maybe_long_haul(rng, &mut spec.ops, 400);
     }
     spec
 }
@@ -182,6 +183,9 @@ impl Scenario for C05 {
                     if *n == 0 {
                         st.count("probe:fill_0");
                     }
+                    if *n >= 4 * 65_536 {
+                        st.count("probe:long_haul");
+                    }
                 }
                 if cur.half && matches!(call, Call::U32) {
                     st.count("probe:second_half_served");
@@ -257,6 +261,7 @@ impl Scenario for C05 {
             "probe:tail_1_4",
             "probe:tail_5_7",
             "probe:second_half_served",
+            "probe:long_haul",
         ]
     }
 }
